@@ -756,6 +756,8 @@ class Parser:
                 rest = lines[-1][end_col:]
                 stripped = rest.lstrip(" \t\f\r\n")
                 end_col += len(rest) - len(stripped)
+                if stripped.startswith("#"):  # a comment: skipped to the end of its line (and left out of the text below)
+                    stripped, end_col = "", len(lines[-1])
                 following = self._tokenizer.get_lines([end_lnum + 1])[0] if not stripped else ""
                 if not following:
                     break
@@ -764,9 +766,40 @@ class Parser:
             lines[-1] = lines[-1][:end_col]
             lines[0] = lines[0][col:]
             node.debug_text = ast.Constant(  # type: ignore[attr-defined]
-                value="".join(lines), lineno=lnum, col_offset=col, end_lineno=end_lnum, end_col_offset=end_col
+                value=self._without_comments("".join(lines)), lineno=lnum, col_offset=col, end_lineno=end_lnum, end_col_offset=end_col
             )
         return node
+
+    @staticmethod
+    def _without_comments(text: str) -> str:
+        """The source text of a `=` debug field as CPython keeps it: comments are left out, their line ends stay."""
+        if "#" not in text:
+            return text
+        out, pos, quote = [], 0, ""
+        while pos < len(text):
+            ch = text[pos]
+            if quote:
+                if ch == "\\":
+                    out.append(text[pos : pos + 2])
+                    pos += 2
+                    continue
+                if text.startswith(quote, pos):
+                    out.append(quote)
+                    pos += len(quote)
+                    quote = ""
+                    continue
+            elif ch in "'\"":
+                quote = ch * 3 if text.startswith(ch * 3, pos) else ch
+                out.append(quote)
+                pos += len(quote)
+                continue
+            elif ch == "#":
+                end = text.find("\n", pos)
+                pos = len(text) if end < 0 else end
+                continue
+            out.append(ch)
+            pos += 1
+        return "".join(out)
 
     def _decode_fstring_parts(self, values: list[Any], raw: bool) -> None:
         """literal parts carry the source text: undouble braces and decode escapes like CPython does"""
